@@ -64,14 +64,22 @@ for d, _, files in os.walk(os.path.join(VERIF, "vsched")):
 # 3b. generated instrumented copies: every tools/gen_*.py prints a JSON object {repo path: replacement path}
 # (it regenerates the replacement from the CURRENT repo file into .build/gen/)
 import subprocess
-for g in ([] if os.environ.get("VERIF_NO_HOOKS") else sorted(glob.glob(os.path.join(VERIF, "tools", "gen_*.py")))):
-    o = subprocess.check_output([sys.executable, g, REPO, GEN], text=True)
-    rep.update(json.loads(o))
-
-# 4. extra
+# The extra overlay (detection demos: mutated copies of repo files) is merged BEFORE the generators, and its mapping
+# is handed to them (VERIF_SRC_OVERRIDES) so that they instrument the mutant, not the file it replaces.
 extra = os.environ.get("VERIF_EXTRA_OVERLAY")
+genv = dict(os.environ)
 if extra:
-    rep.update(json.load(open(extra))["Replace"])
+    xrep = json.load(open(extra))["Replace"]
+    rep.update(xrep)
+    opath = os.path.join(BUILD, "ov", "overrides.%d.json" % os.getpid())
+    os.makedirs(os.path.dirname(opath), exist_ok=True)
+    json.dump(xrep, open(opath, "w"))
+    genv["VERIF_SRC_OVERRIDES"] = opath
+for g in ([] if os.environ.get("VERIF_NO_HOOKS") else sorted(glob.glob(os.path.join(VERIF, "tools", "gen_*.py")))):
+    o = subprocess.check_output([sys.executable, g, REPO, GEN], text=True, env=genv)
+    rep.update(json.loads(o))
+if extra:
+    os.remove(opath)
 
 out = sys.argv[1] if len(sys.argv) > 1 else os.path.join(BUILD, "overlay.json")
 tmp = out + ".%d" % os.getpid()
